@@ -245,6 +245,7 @@ func runC11(c *Ctx) {
 	}
 
 	ruleSizeParam(c) // SIZE is decoded as an unsigned decimal that cannot wrap
+	ruleParamEnable(c) // a parameter of a disabled extension is refused, one of an enabled extension is not (each by its own flag)
 
 	ruleGrammarGuards(c)
 	ruleOptsPointerFresh(c)
